@@ -1,6 +1,89 @@
-/-! Driver entry for property C03 (stub: not implemented yet). -/
-namespace HeartwoodModel.Driver.C03
+import HeartwoodModel.Model.Quorum
+import HeartwoodModel.Driver.Util
+/-! Driver entry for C03.
 
-def run (_args : List String) : String := "unimplemented"
+Case: `<mode> <parents> <salt> <ord> <le> <rel> <tips> <threshold>`
+* `mode` — `v` (votes set with `modify_vote`) or `f` (refs on disk read by `Canonical::reference`); the
+  model is the same for both.
+* `parents` — per commit `r` (root) or `i+j…` (indices of earlier commits); `salt` — a number mixed into
+  the commit messages (varies the oid order). Both are only used by the harness to rebuild the graph.
+* `ord` — rank of each commit in the order of the real oids (a permutation of `0..n-1`).
+* `le`, `rel` — `n` rows of `n` bits: `le[i][j]` = commit `i` is `j` or an ancestor of `j`,
+  `rel[i][j]` = `git_merge_base(i, j)` succeeds; computed by the real libgit2.
+* `tips` — per delegate a commit index or `x` (no tip).
+Output: `ok:<commit index>` | `none` | `diverging` | `git`. -/
+namespace HeartwoodModel.Driver.C03
+open HeartwoodModel.Quorum HeartwoodModel.Driver.Util
+
+def parseParents (s : String) : Option Nat :=
+  let rows := splitOn s ','
+  let rec go : List String → Nat → Option Nat
+    | [], i => some i
+    | r :: rs, i =>
+      if r == "r" then go rs (i + 1)
+      else
+        match (splitOn r '+').mapM nat? with
+        | some ps => if !ps.isEmpty && ps.all (· < i) then go rs (i + 1) else none
+        | none => none
+  go rows 0
+
+def parseMatrix (s : String) (n : Nat) : Option (List (List Bool)) := do
+  let rows := splitOn s ','
+  if rows.length != n then none
+  let m ← rows.mapM (fun r => r.toList.mapM (fun c => if c == '1' then some true else if c == '0' then some false else none))
+  if m.all (·.length == n) then some m else none
+
+def look (m : List (List Bool)) (i j : Nat) : Bool :=
+  match m[i]? with
+  | some row => match row[j]? with
+    | some b => b
+    | none => false
+  | none => false
+
+def isPerm (xs : List Nat) : Bool :=
+  (List.range xs.length).all (fun i => xs.contains i)
+
+def indexOf? (xs : List Nat) (x : Nat) : Option Nat :=
+  let rec go : List Nat → Nat → Option Nat
+    | [], _ => none
+    | y :: ys, i => if y = x then some i else go ys (i + 1)
+  go xs 0
+
+def parseTips (s : String) (n : Nat) : Option (List (Option Nat)) :=
+  (splitOn s ',').mapM (fun t =>
+    if t == "x" then some none
+    else match nat? t with
+      | some c => if c < n then some (some c) else none
+      | none => none)
+
+def run (args : List String) : String :=
+  match args with
+  | [mode, parents, salt, ord, le, rel, tips, thr] =>
+    if mode != "v" && mode != "f" then "bad-op" else
+    match parseParents parents, nat? salt, nats? ord, nat? thr with
+    | some n, some _, some ord, some t =>
+      if n == 0 || ord.length != n || !isPerm ord then "bad-op" else
+      match parseMatrix le n, parseMatrix rel n, parseTips tips n with
+      | some leM, some relM, some tips =>
+        -- model oids are the ranks; `idx r` = commit index of rank `r`
+        let idx (r : Nat) : Nat := (indexOf? ord r).getD n
+        let leR (a b : Nat) : Bool := look leM (idx a) (idx b)
+        let relR (a b : Nat) : Bool := look relM (idx a) (idx b)
+        let rec build : List (Option Nat) → Nat → List (Nat × Nat) → List (Nat × Nat)
+          | [], _, acc => acc
+          | none :: rest, d, acc => build rest (d + 1) acc
+          | some c :: rest, d, acc => build rest (d + 1) (setTip d (ord.getD c n) acc)
+        let tipsM := build tips 1 []
+        match quorum leR relR tipsM t with
+        | .ok r =>
+          match indexOf? ord r with
+          | some i => s!"ok:{i}"
+          | none => "bad-op"
+        | .error .noCandidates => "none"
+        | .error .diverging => "diverging"
+        | .error .git => "git"
+      | _, _, _ => "bad-op"
+    | _, _, _, _ => "bad-op"
+  | _ => "bad-op"
 
 end HeartwoodModel.Driver.C03
